@@ -48,11 +48,19 @@ OPS = ['select', 'select', 'select', 'examine', 'close', 'reconnect',
 def strategy(tier: str) -> Any:
     r = st.integers(0, 30)
     step = st.tuples(st.integers(0, 2), st.sampled_from(OPS), r, r).map(list)
-    return st.fixed_dictionaries({
+    owned = st.fixed_dictionaries({
         'backend': st.sampled_from(['dict', 'dict', 'dict', 'maildir',
                                     'maildir', 'maildir-threads']),
         'steps': st.lists(step, min_size=2, max_size=30),
     })
+    cmd = st.tuples(st.integers(0, 3), st.sampled_from(BURST_OPS)).map(list)
+    burst = st.fixed_dictionaries({
+        'kind': st.just('burst'),
+        'nsess': st.sampled_from([2, 3, 4]),
+        'rounds': st.lists(st.lists(cmd, min_size=2, max_size=4),
+                           min_size=2, max_size=10),
+    })
+    return st.one_of(owned, owned, owned, burst)
 
 
 class Sess:
@@ -71,8 +79,168 @@ class Sess:
         self.inst: int | None = None
 
 
+BURST_OPS = ['select', 'select', 'select', 'examine', 'append', 'append',
+             'close', 'noop']
+
+
+def _burst_case(case: dict[str, Any]) -> CaseOut:
+    """maildir on the threading subsystem: in each round several sessions
+    send SELECT / EXAMINE / APPEND / CLOSE at the same moment (different
+    worker threads). Whatever the interleaving: no message is shown \\Recent
+    in two read-write selections, EXAMINE never shows one that a later
+    read-write selection does not also get... (only the first is asserted),
+    and the RECENT number equals what the session then sees."""
+    from harness.servers import maildir_sim
+    from harness.simloop import NoQuiescence
+    out = CaseOut()
+    out.nondeterministic = True
+    tmp = tempfile.mkdtemp(prefix='c17b-')
+    sim = maildir_sim(tmp, threads=True)
+    overlap = 0
+    try:
+        clients = []
+        for k in range(case['nsess']):
+            c = Client(sim, prefix=b'c%d-' % k)
+            assert c.login('alice').ok
+            clients.append(c)
+        sel: dict[int, tuple[int, bool] | None] = {k: None for k in
+                                                   range(len(clients))}
+        inst = [0]
+        shown: dict[int, set[int]] = {}
+        vid = 0
+        assigned: dict[tuple[int, int], bytes] = {}
+        for rno, rnd in enumerate(case['rounds']):
+            if out.failures:
+                break
+            pending: dict[int, tuple[bytes, str]] = {}
+            appended: dict[int, bytes] = {}
+            for k, op in rnd:
+                k %= len(clients)
+                c = clients[k]
+                if k in pending or c.conn.done:
+                    continue
+                if op in ('select', 'examine'):
+                    cmd = (b'EXAMINE' if op == 'examine' else b'SELECT') \
+                        + b' INBOX'
+                elif op == 'append':
+                    vid += 1
+                    m = make_message('t%d' % vid)
+                    cmd = b'APPEND INBOX {%d+}\r\n%s' % (len(m), m)
+                    appended[k] = b't%d' % vid
+                elif op == 'close' and sel[k] is not None:
+                    cmd = b'CLOSE'
+                else:
+                    cmd = b'NOOP'
+                    op = 'noop'
+                tag = c.next_tag()
+                if op in ('select', 'examine'):
+                    c.shadow.begin_select()
+                c.conn.feed(tag + b' ' + cmd + b'\r\n')
+                pending[k] = (tag, op)
+            if len(pending) > 1:
+                overlap += 1
+            try:
+                sim.settle(advance=1.0)
+            except NoQuiescence:
+                out.fail('no-quiescence:threads', f'round {rno}')
+                break
+            for k, (tag, op) in pending.items():
+                c = clients[k]
+                raw = c.conn.take()
+                c.log.append((tag + b' ' + op.encode(), raw))
+                import re as _re
+                mu = _re.search(rb'APPENDUID (\d+) (\d+)', raw)
+                if mu and k in appended:
+                    key = (int(mu.group(1)), int(mu.group(2)))
+                    if key in assigned:
+                        out.fail('uid-assigned-twice:threads',
+                                 f'{key} for {assigned[key]!r} and for '
+                                 f'{appended[k]!r}')
+                    assigned[key] = appended[k]
+                resps = c.parse(raw)
+                for r in resps:
+                    c.shadow.apply(r)
+                ok = any(r.kind == 'tagged' and r.tag == tag
+                         and r.name == b"OK" for r in resps)
+                if op in ('select', 'examine'):
+                    if ok:
+                        inst[0] += 1
+                        sel[k] = (inst[0], op == 'examine')
+                    else:
+                        sel[k] = None
+                        c.shadow.reset()
+                elif op == 'close' and ok:
+                    sel[k] = None
+                    c.shadow.reset()
+            # everybody who has it selected looks (one at a time)
+            for k, c in enumerate(clients):
+                if sel[k] is None or c.conn.done:
+                    continue
+                c.command(b'NOOP')
+                if c.shadow.view:
+                    c.command(b'FETCH 1:* (UID FLAGS)', nonuid_data_cmd=True)
+                for sig, msg in c.shadow.errors:
+                    out.fail(sig + ':threads', f'session {k}: {msg}')
+                c.shadow.errors.clear()
+                rec = {u for u, fl in zip(c.shadow.view, c.shadow.flags)
+                       if u is not None and fl and b'\\recent' in fl}
+                i, ro = sel[k]           # type: ignore[misc]
+                if ro:
+                    continue
+                for u in rec:
+                    shown.setdefault(u, set()).add(i)
+                    if len(shown[u]) > 1:
+                        out.fail('recent-shown-to-two-selections:threads',
+                                 f'UID {u} was shown \\Recent in read-write '
+                                 f'selections {sorted(shown[u])} (round '
+                                 f'{rno}: {[p[1] for p in pending.values()]})')
+                if c.shadow.recent is not None and \
+                        c.shadow.recent != len(rec):
+                    out.fail('recent-count-disagrees-with-flags:threads',
+                             f'session {k} was told {c.shadow.recent} RECENT '
+                             f'but sees \\Recent on {sorted(rec)}')
+        # C04 under real concurrency: what APPENDUID said is what is there
+        if not out.failures and assigned:
+            from harness.client import probe_dump
+            sim.settle(advance=1.0)
+            d = probe_dump(sim, 'alice', b'INBOX')
+            assert d is not None
+            for (uv, u), v in assigned.items():
+                got = d['messages'].get(u)
+                if uv != d.get('uidvalidity'):
+                    out.fail('uidvalidity-changed-under-append:threads',
+                             f'APPENDUID said UIDVALIDITY {uv}, the mailbox '
+                             f'now has {d.get("uidvalidity")}')
+                    break
+                if got is None or got['vid'] != v:
+                    out.fail('appenduid-not-found-by-uid-fetch:threads',
+                             f'APPENDUID {uv} {u} was given for {v!r}; UID '
+                             f'FETCH finds {got and got["vid"]!r} '
+                             f'(mailbox: {sorted(d["messages"])})')
+                    break
+            out.counters['burst_appenduids_checked'] = len(assigned)
+        import os as _os
+        if out.failures and _os.environ.get('VERIF_DEBUG_LOGS'):
+            for j, c in enumerate(clients):
+                print(f'--- session {j}')
+                for sent, got in c.log[-12:]:
+                    print('   C:', sent[:90], '\n   S:', got[-700:])
+    finally:
+        sim.close()
+        shutil.rmtree(tmp, ignore_errors=True)
+    out.label('maildir-threads', 'burst')
+    out.counters['burst_rounds_with_overlap'] = overlap
+    if overlap:
+        out.nontrivial = case_hash(case)
+    out.sample = {'kind': 'burst', 'nsess': case['nsess'],
+                  'rounds': case['rounds'][:6]}
+    return out
+
+
 def run_case(case: dict[str, Any]) -> CaseOut:
     from harness.servers import dict_sim, maildir_sim
+    if case.get('kind') == 'burst':
+        return _burst_case(case)
     out = CaseOut()
     backend = case['backend']
     tmp = None
